@@ -60,8 +60,7 @@ def work(job):
     res["states"] = case.nstates
     has_yield = bool(list(case.outcome.cctx.yield_codes))
     n_in = 10 if tier == "quick" else 40
-    for _ in range(n_in):
-        data = inputs.random_walk(case.dfa, rng, rng.randint(1, 16))
+    for data in [inputs.random_walk(case.dfa, rng, rng.randint(1, 16)) for _ in range(n_in)] + inputs.extra(prog):
         n = len(data)
         if n == 0:
             continue
